@@ -94,6 +94,13 @@ def main(ctx: Ctx) -> int:
                         r1 = rng.choice(["H2", "CO", "N2"] if fmt == "leeds" else ["CO"])
                         sh = r1
                     cases.append({"fmt": fmt, "code": code, "a": a, "b": b, "c": c, "sh": sh, "r1": r1})
+    # every self-shielded photoreaction with a negative, a zero and a positive exponent coefficient (the sign classes above meet a
+    # shielded molecule only by chance)
+    for sh_ in ("H2", "CO", "N2"):
+        for c_ in (-2.5, 0.0, 2.5):
+            cases.append({"fmt": "leeds", "code": 4, "a": 2.5e-10, "b": 0.0, "c": c_, "sh": sh_, "r1": sh_})
+    for c_ in (-2.5, 2.5):
+        cases.append({"fmt": "uclchem", "code": "PHOTON", "a": 2.5e-10, "b": 0.0, "c": c_, "sh": "CO", "r1": "CO"})
     # groups of cases rendered as ONE network: every case alone, plus pairs of entries of the SAME reaction (same species, window and
     # type) with different coefficients, as merged databases and multi-fit entries have them: each k[i] must follow its own line
     groups = [[ci] for ci in range(len(cases))]
